@@ -535,11 +535,25 @@ class Verifier(Interp):
         params = [p.arg for p in a.args]
         saved = (self.st.vars, self.module)
         v = dict(f.closure)
+        isdef = isinstance(f.node, ast.FunctionDef)
+        if isdef and getattr(f, "def_fi", None) is self.cur_fi and getattr(f, "def_depth", None) == len(self.inline_stack):
+            v.update(self.st.vars)               # the defining activation is the current one: by-reference capture
         v.update(getattr(f, "defaults", {}))
+        if len(args) > len(params) or kwargs:
+            raise Unsupported("call of a local function with keyword or surplus arguments")
         v.update(zip(params, args))
+        for p in params:
+            if p not in v or (p not in getattr(f, "defaults", {}) and params.index(p) >= len(args)):
+                raise RaiseSig("TypeError")
         self.st.vars = v
         self.module = f.module
         try:
+            if isdef:
+                try:
+                    self.exec_block(f.node.body)
+                    return NoneV()
+                except ReturnSig as r:
+                    return r.value
             return self.ev(f.node.body)
         finally:
             self.st.vars, self.module = saved
@@ -1196,7 +1210,15 @@ class Verifier(Interp):
                 self.used_assumptions.add("assumed about every match of the run-time pattern in %s: %s" % (self.cur_func, e))
                 self.assume(self.spec_eval(lambda: self.formula(e), {"MATCH": P(STR, mt)}), "match")
             m = Special("match", text=mt, groups={})
-            lib.apply(self, repl, [m], {}, node)
+            if inv.step_ensures:
+                self.st.calls = []
+            rv = lib.apply(self, repl, [m], {}, node)
+            if inv.step_ensures:
+                self.cur_match = m
+                env_s = {"MATCH": P(STR, mt), "REPL": rv}
+                for i_, e_ in enumerate(inv.step_ensures):
+                    self.prove("%s.replacement.%d" % (name, i_),
+                               self.spec_eval(lambda: self.formula(e_), env_s), meta={"kind": "loop-step"})
             self.prove(name + ".step", inv_formula(), meta={"kind": "loop-step"})
             raise PathCut()
         self.assume(inv_formula(), "inv.exit")
